@@ -2,18 +2,21 @@
 # tools/mutant_run.sh <ID> <patch.diff> [tier]
 # Applies a patch to a scratch COPY of /repo (never to /repo itself), builds the property's check
 # against that copy in a scratch copy of the harness, runs it, prints its output and exit code,
-# and removes the scratch source trees. The scratch build directory is kept per ID for
-# incremental rebuilds; remove it with: rm -rf /var/tmp/verif-mut
+# and restores the scratch copy. The scratch trees and build directory are kept per ID for
+# incremental rebuilds; remove them when done: rm -rf /var/tmp/verif-mut/<id>
 set -u
 ID="$1"; PATCH=$(readlink -f "$2"); TIER="${3:-quick}"
 BIN=$(printf '%s' "$ID" | tr 'A-Z' 'a-z')
 VROOT=$(cd "$(dirname "$0")/.." && pwd)
 S=/var/tmp/verif-mut/$BIN
 mkdir -p "$S"
-rm -rf "$S/repo" "$S/verif"
-rsync -a --exclude target --exclude .git /repo/ "$S/repo/"
-mkdir -p "$S/verif"
-rsync -a --exclude target --exclude .git --exclude replays --exclude evidence "$VROOT/" "$S/verif/"
+# The scratch copies persist between runs and are re-synchronised by CONTENT without preserving
+# mtimes: a file restored to its original content gets a fresh mtime, so cargo rebuilds it
+# (with preserved mtimes cargo would keep the object code of the previous mutant).
+mkdir -p "$S/repo" "$S/verif"
+rsync -rlpgoD --checksum --delete --exclude target --exclude .git /repo/ "$S/repo/"
+rm -rf "$S/verif/replays" "$S/verif/evidence"
+rsync -rlpgoD --checksum --delete --exclude target --exclude .git --exclude replays --exclude evidence --exclude Cargo.toml.scratch "$VROOT/" "$S/verif/"
 ( cd "$S/repo" && patch -p1 --no-backup-if-mismatch < "$PATCH" ) || { echo "PATCH-FAILED"; exit 3; }
 sed -i "s|/repo/crates/|$S/repo/crates/|g" "$S/verif/harness/Cargo.toml"
 export CARGO_NET_OFFLINE=true CARGO_TARGET_DIR="$S/target" VERIF_ROOT="$S/verif"
@@ -23,5 +26,6 @@ RC=$?
 echo "MUTANT-RESULT id=$ID patch=$(basename "$PATCH") exit=$RC"
 mkdir -p "$VROOT/replays/mutants" 2>/dev/null
 cp -f "$S"/verif/replays/*.json "$VROOT/replays/mutants/" 2>/dev/null
-rm -rf "$S/repo" "$S/verif"
+# undo the patch in the scratch copy right away (content-sync from /repo gives fresh mtimes)
+rsync -rlpgoD --checksum --delete --exclude target --exclude .git /repo/ "$S/repo/"
 exit $RC
